@@ -409,6 +409,25 @@ class StateWorld(Run):
         fwd = sut.list_to_ref(g2.forward(ident))
         ident = self.S.mk_list(rm.identity_images(m))
         bwd = sut.list_to_ref(g2.backward(ident))
+        if not (rm.map_is_valid(fwd) and rm.map_is_valid(bwd)):
+            # the package's own gate does not act as a Clifford map on the identity list: no
+            # reference semantics can be captured.  For C05 the same gate applied to a state
+            # with those rows is judged directly; elsewhere the gate is environment and dropped
+            if "c05" in self.flags and self.S.name == "numpy":
+                for direction in ("forward", "backward"):
+                    st = self.pc.identity_map(m).to_state()
+                    try:
+                        g3 = gate.copy()
+                        g3.qubits = g2.qubits
+                        getattr(g3, direction)(st)
+                        rm.alpha(st.gs, st.ps, st.r, m)
+                    except rm.InvariantBroken as e:
+                        raise Violation("c05.invariant", {"after": "gate.%s on the zero state of its own register" % direction,
+                                                          "what": e.what, "qubits": [int(x) for x in gate.qubits]})
+                    except Exception:
+                        pass
+            self.stats["env_error:gate_semantics_not_a_clifford_map"] += 1
+            raise Skip()
         return RefGate(qubits, fwd, bwd)
 
     def _p_gate(self, rng):
